@@ -54,8 +54,8 @@ MUTATOR_CALLS = SPAWNERS + KILLERS + [W + '_stop', W + 'send_signal',
 
 def dead_status_false(e):
     # `process.status in (DEAD_OR_ZOMBIE, UNEXISTING)` assumed False
-    if isinstance(e, ast.Compare) and isinstance(e.left, ast.Attribute) and \
-            e.left.attr == 'status' and isinstance(e.ops[0], ast.In):
+    from rules.common import dead_status_set
+    if dead_status_set(e):
         return False
     return None
 
@@ -166,14 +166,8 @@ def r2(run, ctx):
 
 
 def _dominated_by_dead_test(cfg, n):
-    def dead(e):
-        if isinstance(e, ast.Compare) and isinstance(e.left, ast.Attribute) and \
-                e.left.attr == 'status' and isinstance(e.ops[0], ast.In):
-            names = {dotted(x) for x in getattr(e.comparators[0], 'elts', [])}
-            if names and names <= {'DEAD_OR_ZOMBIE', 'UNEXISTING'}:
-                return True
-        return None
-    return guarded(cfg, n, dead, True)
+    from rules.common import dead_test
+    return guarded(cfg, n, dead_test, True)
 
 
 def r3(run, ctx):
@@ -261,34 +255,50 @@ def r4(run, ctx):
     for m, n in writers:
         cfg = ctx.cfg(m)
         val = n.ast.value
-        if not isinstance(val, ast.Name) or isinstance(n.ast, ast.AugAssign):
-            run.fail('R4', m, n.ast, 'numprocesses is written from an expression that is '
-                     'not a clamped local')
+        if isinstance(n.ast, ast.AugAssign):
+            run.fail('R4', m, n.ast, 'numprocesses is modified in place, bypassing the clamp and '
+                     'the singleton guard')
             continue
-        v = val.id
+        # the requested value: a local, or an inline clamp max(X, 0)
+        aliases = set()
+        inline_clamp = False
+        core = val
+        if isinstance(val, ast.Call) and dotted(val.func) == 'max' and len(val.args) == 2 and \
+                any(astq.const_value(a_, None) == 0 for a_ in val.args):
+            inline_clamp = True
+            core = [a_ for a_ in val.args if astq.const_value(a_, None) != 0][0]
+        aliases.add(norm_text(core))
+        if isinstance(core, ast.Call) and dotted(core.func) in ('int', 'float') and core.args:
+            aliases.add(norm_text(core.args[0]))
+        v = core.id if isinstance(core, ast.Name) else None
 
-        def is_v(e):
-            return isinstance(e, ast.Name) and e.id == v
+        def is_v(e, aliases=aliases):
+            return norm_text(e) in aliases
 
         def is_zero(e):
             return astq.const_value(e, default=None) == 0
 
         def is_one(e):
             return astq.const_value(e, default=None) == 1
-        zero_assign = [x for x in cfg.nodes if x.kind == 'stmt' and
+        zero_assign = [x for x in cfg.nodes if v and x.kind == 'stmt' and
                        isinstance(x.ast, ast.Assign) and
                        any(isinstance(t, ast.Name) and t.id == v for t in x.ast.targets) and
                        (astq.const_value(x.ast.value, default=None) == 0 or
                         (isinstance(x.ast.value, ast.Call) and dotted(x.ast.value.func) == 'max'))]
         neg = ordering_assumption(is_v, is_zero, '<')
-        r = reach_under(cfg, cfg.entry, neg, avoid=zero_assign)
-        run.check('R4', n.id not in r, 'a negative request is clamped to 0 before the write',
-                  m, n.ast, 'numprocesses can be set to a negative value',
-                  path=ctx.path_text(m, path_under(cfg, cfg.entry, n, neg, avoid=zero_assign) or []))
+        if inline_clamp:
+            run.ok('R4', 'negative request clamped inline (max(.., 0))', m.where(n.ast))
+        else:
+            r = reach_under(cfg, cfg.entry, neg, avoid=zero_assign)
+            run.check('R4', n.id not in r, 'a negative request is clamped to 0 before the write',
+                      m, n.ast, 'numprocesses can be set to a negative value',
+                      path=ctx.path_text(m, path_under(cfg, cfg.entry, n, neg,
+                                                       avoid=zero_assign) or []))
         big = combine(ordering_assumption(is_v, is_one, '>'), attr_truth('singleton', True))
         r = reach_under(cfg, cfg.entry, big)
         run.check('R4', n.id not in r, 'a singleton refuses a target above 1 before the write',
-                  m, n.ast, 'a singleton watcher can be given numprocesses > 1',
+                  m, n.ast, 'a singleton watcher can be given numprocesses > 1 (the write is '
+                  'reachable before / without the refusal)',
                   path=ctx.path_text(m, path_under(cfg, cfg.entry, n, big) or []))
     # set_numprocesses: write followed by yielded manage_processes
     f = ctx.fn(W + 'set_numprocesses')
